@@ -471,17 +471,36 @@ func ruleT6(c *Ctx) {
 		fn := fn
 		// blocks that store a given field of *val
 		stores := map[string]map[*ssa.BasicBlock]bool{}
-		eachInstr(fn, func(in ssa.Instruction) {
-			st, ok := in.(*ssa.Store)
-			if !ok {
-				return
+		mark := func(f string, b *ssa.BasicBlock) {
+			if stores[f] == nil {
+				stores[f] = map[*ssa.BasicBlock]bool{}
 			}
-			if fa, ok := st.Addr.(*ssa.FieldAddr); ok && fa.X == ssa.Value(val) {
-				_, f := ownerField(fa)
-				if stores[f] == nil {
-					stores[f] = map[*ssa.BasicBlock]bool{}
+			stores[f][b] = true
+		}
+		eachInstr(fn, func(in ssa.Instruction) {
+			switch x := in.(type) {
+			case *ssa.Store:
+				if fa, ok := x.Addr.(*ssa.FieldAddr); ok && fa.X == ssa.Value(val) {
+					_, f := ownerField(fa)
+					mark(f, x.Block())
 				}
-				stores[f][st.Block()] = true
+			case ssa.CallInstruction:
+				// a helper that is handed val and assigns the field on all of its paths
+				cal := x.Common().StaticCallee()
+				if cal == nil || cal.Blocks == nil {
+					return
+				}
+				for i, a := range x.Common().Args {
+					if a == ssa.Value(val) && i < len(cal.Params) {
+						for _, fs := range need {
+							for _, f := range fs {
+								if mustAssignField(cal, cal.Params[i], f, 3) {
+									mark(f, in.Block())
+								}
+							}
+						}
+					}
+				}
 			}
 		})
 		eachInstr(fn, func(in ssa.Instruction) {
@@ -553,4 +572,53 @@ func ruleT6(c *Ctx) {
 	if n < 3 {
 		c.anchorFail("only %d token-value obligations found in the scanner", n)
 	}
+}
+
+// mustAssignField: every path from fn's entry to a return stores prm.<field>
+// (directly or through a callee that does).
+func mustAssignField(fn *ssa.Function, prm *ssa.Parameter, field string, depth int) bool {
+	if depth == 0 || fn.Blocks == nil {
+		return false
+	}
+	assigns := map[*ssa.BasicBlock]bool{}
+	eachInstr(fn, func(in ssa.Instruction) {
+		switch x := in.(type) {
+		case *ssa.Store:
+			if fa, ok := x.Addr.(*ssa.FieldAddr); ok && fa.X == ssa.Value(prm) {
+				if _, f := ownerField(fa); f == field {
+					assigns[x.Block()] = true
+				}
+			}
+		case ssa.CallInstruction:
+			cal := x.Common().StaticCallee()
+			if cal == nil || cal == fn {
+				return
+			}
+			for i, a := range x.Common().Args {
+				if a == ssa.Value(prm) && i < len(cal.Params) && mustAssignField(cal, cal.Params[i], field, depth-1) {
+					assigns[in.Block()] = true
+				}
+			}
+		}
+	})
+	seen := map[*ssa.BasicBlock]bool{}
+	var escapes func(b *ssa.BasicBlock) bool
+	escapes = func(b *ssa.BasicBlock) bool {
+		if seen[b] || assigns[b] {
+			return false
+		}
+		seen[b] = true
+		if len(b.Instrs) > 0 {
+			if _, ok := b.Instrs[len(b.Instrs)-1].(*ssa.Return); ok {
+				return true
+			}
+		}
+		for _, s := range b.Succs {
+			if escapes(s) {
+				return true
+			}
+		}
+		return false
+	}
+	return !escapes(fn.Blocks[0])
 }
